@@ -48,7 +48,7 @@ theorem c10_stopoffer_is_queued (s : Stack) (i : Nat) (x : Instance) (hx : s.get
 
 /-- cancelled before the body ran, or during the initial wait: the task ends without any effect
 (no StopOffer: "stopping before the first offer of a cyclic instance sends nothing") -/
-theorem c10_cancel_before_first_offer (s : Stack) (tid i : Nat) (t : TaskSt) (hc : t.cancelled = true)
+theorem c10_cancel_before_first_offer (s : Stack) (tid : Tid) (i : Nat) (t : TaskSt) (hc : t.cancelled = true)
     (hpc : t.pc = .created ∨ t.pc = .initial) :
     (s.stepOffer tid t i).outs = s.outs ∧ (s.stepOffer tid t i).loop = s.loop := by
   rcases hpc with h | h <;> simp [stepOffer, h, hc, finish, setTask]
@@ -60,17 +60,17 @@ theorem c10_initial_delay_window (s : Stack) (h : s.tm.initialDelayMin ≤ s.tm.
   draw_in_window s _ _ h
 
 /-- a positive sleep arms exactly one timer at now + d; a zero sleep is a bare yield (one hop, no timer) -/
-theorem c10_sleep_timer (s : Stack) (tid : Nat) (t : TaskSt) (d : Nat) (pc : Pc) (hd : d ≠ 0) :
+theorem c10_sleep_timer (s : Stack) (tid : Tid) (t : TaskSt) (d : Nat) (pc : Pc) (hd : d ≠ 0) :
     (s.sleepFor tid t d pc).loop.timers = s.loop.timers ++ [⟨s.loop.nextSeq, s.loop.now + d, .sleepDone tid⟩] := by
   simp [sleepFor, hd, setTask]
-theorem c10_sleep_zero (s : Stack) (tid : Nat) (t : TaskSt) (pc : Pc) :
+theorem c10_sleep_zero (s : Stack) (tid : Tid) (t : TaskSt) (pc : Pc) :
     (s.sleepFor tid t 0 pc).loop.timers = s.loop.timers ∧
     (s.sleepFor tid t 0 pc).loop.ready = s.loop.ready ++ [⟨none, .taskStep tid⟩] := by
   simp [sleepFor, setTask]
 
 /-- cancelled in the repetition or cyclic phase of a cyclic instance: exactly the StopOffer request
 follows, and the instance stops answering FindService -/
-theorem c10_cancel_after_offer_cyclic (s : Stack) (tid i : Nat) (t : TaskSt) (x : Instance) (k : Nat)
+theorem c10_cancel_after_offer_cyclic (s : Stack) (tid : Tid) (i : Nat) (t : TaskSt) (x : Instance) (k : Nat)
     (hc : t.cancelled = true) (hpc : t.pc = .rep k ∨ t.pc = .cyclic) (hx : s.getInst i = some x)
     (hcyc : s.tm.cyclicOfferDelay ≠ 0) :
     s.stepOffer tid t i =
@@ -78,14 +78,14 @@ theorem c10_cancel_after_offer_cyclic (s : Stack) (tid i : Nat) (t : TaskSt) (x 
   rcases hpc with h | h <;> simp [stepOffer, h, hc, hx, hcyc]
 
 /-- ... and of a non-cyclic instance: nothing at all (its StopOffer was sent by stop() itself) -/
-theorem c10_cancel_after_offer_noncyclic (s : Stack) (tid i : Nat) (t : TaskSt) (x : Instance) (k : Nat)
+theorem c10_cancel_after_offer_noncyclic (s : Stack) (tid : Tid) (i : Nat) (t : TaskSt) (x : Instance) (k : Nat)
     (hc : t.cancelled = true) (hpc : t.pc = .rep k ∨ t.pc = .cyclic) (hx : s.getInst i = some x)
     (hcyc : s.tm.cyclicOfferDelay = 0) :
     (s.stepOffer tid t i).outs = s.outs := by
   rcases hpc with h | h <;> simp [stepOffer, h, hc, hx, hcyc, finish, setTask, setInst]
 
 /-- repetition i is followed by a sleep of base * 2^i; after the last repetition the cyclic period -/
-theorem c10_next_delay (s : Stack) (tid i : Nat) (t : TaskSt) (k : Nat) (hc : t.cancelled = false) (hpc : t.pc = .rep k)
+theorem c10_next_delay (s : Stack) (tid : Tid) (i : Nat) (t : TaskSt) (k : Nat) (hc : t.cancelled = false) (hpc : t.pc = .rep k)
     (hk : k + 1 < s.tm.repetitionsMax) :
     s.stepOffer tid t i =
       (s.sendOffer i none false).sleepFor tid t (pow2 (k + 1) * (s.sendOffer i none false).tm.repetitionsBaseDelay) (.rep (k + 1)) := by
